@@ -149,9 +149,6 @@ Qed.
 Lemma missing_walk_eq U vis r : missing_walk U vis r = missing_full U vis r.
 Proof. reflexivity. Qed.
 
-Lemma missing_eq U fg vis r : missing U fg vis r = missing_full U vis r.
-Proof. unfold missing. destruct fg; reflexivity. Qed.
-
 Lemma missing_walk_spec U vis r a : wf_dag (ug U) = true ->
   (In a (missing_walk U vis r) <-> reach (ug U) a r /\ srcp U a = true /\ ~ In a vis).
 Proof. rewrite missing_walk_eq. apply missing_full_spec. Qed.
@@ -160,74 +157,220 @@ Theorem walk_eq_full U vis r a :
   (In a (missing_walk U vis r) <-> In a (missing_full U vis r)).
 Proof. rewrite missing_walk_eq. tauto. Qed.
 
-Lemma missing_spec U fg vis r a : wf_dag (ug U) = true ->
-  (In a (missing U fg vis r) <-> reach (ug U) a r /\ srcp U a = true /\ ~ In a vis).
-Proof. rewrite missing_eq. apply missing_full_spec. Qed.
-
-Lemma missing_not_vis U fg vis r a : wf_dag (ug U) = true ->
-  In a (missing U fg vis r) -> reach (ug U) a r /\ srcp U a = true /\ ~ In a vis.
-Proof. intros W H. apply (missing_spec U fg vis r a W). exact H. Qed.
-
-(* an existing ancestor of r that is not requested is already visible *)
-Lemma not_missing_vis U fg vis r a : wf_dag (ug U) = true ->
-  reach (ug U) a r -> srcp U a = true -> ~ In a (missing U fg vis r) -> In a vis.
-Proof.
-  intros W R S N.
-  destruct (memb a vis) eqn:E; [apply memb_In; exact E|]. exfalso. apply N.
-  apply (missing_spec U fg vis r a W). split; [exact R|]. split; [exact S|]. apply memb_false. exact E.
-Qed.
-
-Lemma missing_nil U fg vis r : wf_dag (ug U) = true ->
-  (forall x, reach (ug U) x r -> srcp U x = true -> In x vis) -> missing U fg vis r = [].
-Proof.
-  intros W H. rewrite missing_eq. unfold missing_full. apply filter_nil. intros x Hx.
-  apply (In_anc U r x W) in Hx. destruct (srcp U x) eqn:Sx; [|reflexivity]. cbn [andb].
-  apply negb_false_iff. apply memb_In. apply H; assumption.
-Qed.
-
 Lemma In_boundary U M b :
   In b (boundary U M) <-> (exists m, In m M /\ In b (parents (ug U) m)) /\ srcp U b = true /\ ~ In b M.
 Proof.
   unfold boundary. rewrite filter_In, In_dedup, in_flat_map, andb_true_iff, negb_true_iff, memb_false. tauto.
 Qed.
 
-Lemma boundary_in_vis U fg vis r b : wf_dag (ug U) = true ->
-  In b (boundary U (missing U fg vis r)) -> In b vis.
+Lemma no_elements_nil {A} (l : list A) : (forall x, ~ In x l) -> l = [].
+Proof. destruct l as [|y l]; [reflexivity|]. intros H. exfalso. apply (H y). left. reflexivity. Qed.
+
+(* ---- the walk for ANY batching ----------------------------------------------------------- *)
+(* [ravoid U vis r a]: a is reached from r in the source without passing through a revision the
+   target sees -- what a walk that checks the target after every single step requests. *)
+Inductive ravoid (U : univ) (vis : list revid) (r : revid) : revid -> Prop :=
+| ra_tip : srcp U r = true -> ~ In r vis -> ravoid U vis r r
+| ra_step c p : ravoid U vis r c -> In p (parents (ug U) c) -> srcp U p = true -> ~ In p vis ->
+    ravoid U vis r p.
+
+(* What the repaired walk guarantees whatever the batch size and the shape of the history: it
+   requests only ancestors of r the target does not see, at least the [ravoid] ones, and it stops
+   only at revisions the target sees (every parent of a requested revision is requested or seen). *)
+Definition walk_ok (U : univ) (vis : list revid) (r : revid) (M : list revid) : Prop :=
+  (forall a, In a M -> reach (ug U) a r /\ srcp U a = true /\ ~ In a vis) /\
+  (forall a, ravoid U vis r a -> In a M) /\
+  (forall b, In b (boundary U M) -> In b vis).
+
+Lemma ravoid_missing U vis r a : ravoid U vis r a -> reach (ug U) a r /\ srcp U a = true /\ ~ In a vis.
 Proof.
-  intros W H. apply In_boundary in H. destruct H as [[m [Hm Hp]] [S N]].
-  apply (not_missing_vis U fg vis r b W); [|exact S|exact N].
-  apply reach_trans with m.
-  - apply reach_step with b; [exact Hp | apply reach_refl].
-  - apply (missing_not_vis U fg vis r m W Hm).
+  intros H. induction H as [S N | c p Hc [Rc _] Hp Sp Np].
+  - split; [apply reach_refl | tauto].
+  - split; [|tauto]. apply reach_trans with c; [|exact Rc]. apply reach_step with p; [exact Hp | apply reach_refl].
+Qed.
+
+(* on a target without fillable ghosts every admissible walk requests exactly the missing ancestors *)
+Lemma closed_ravoid U vis r : closedb U vis = true -> forall a x, reach (ug U) a x ->
+  ravoid U vis r x -> srcp U a = true -> ~ In a vis -> ravoid U vis r a.
+Proof.
+  intros C a x R. induction R as [x | a p x Hp Rap IH]; intros Hx Sa Na; [exact Hx|].
+  apply IH; [|exact Sa|exact Na].
+  assert (Sp : srcp U p = true).
+  { destruct (srcp U p) eqn:Sp; [reflexivity|]. apply srcp_ge in Sp.
+    pose proof (reach_ghost _ _ _ Sp Rap) as E. subst a. apply srcp_ge in Sp. congruence. }
+  apply ra_step with x; [exact Hx | exact Hp | exact Sp|].
+  intros Hv. apply Na. apply (closed_reach U vis C a p Rap Hv Sa).
+Qed.
+
+Theorem walk_ok_closed U vis r M a : wf_dag (ug U) = true -> closedb U vis = true ->
+  srcp U r = true -> walk_ok U vis r M -> (In a M <-> In a (missing_full U vis r)).
+Proof.
+  intros W C Sr [H1 [H2 _]]. rewrite (missing_full_spec U vis r a W). split; [apply H1|].
+  intros [R [Sa Na]]. apply H2.
+  apply (closed_ravoid U vis r C a r R); [|exact Sa|exact Na].
+  apply ra_tip; [exact Sr|]. intros Hv. apply Na. apply (closed_reach U vis C a r R Hv Sa).
+Qed.
+
+
+(* ---- the recipe replay (smart source, find_ghosts=False) ------------------------------- *)
+
+Lemma sweep_incl g vis : forall n s x, In x s -> In x (sweep_avoid g vis n s).
+Proof.
+  induction n as [|n IH]; simpl; intros s x H; [exact H|].
+  apply IH. destruct (memb n s && negb (memb n vis)); [apply In_union; right|]; exact H.
+Qed.
+
+Lemma sweep_sound g vis : forall n s x, In x (sweep_avoid g vis n s) ->
+  exists y, In y s /\ reach g x y.
+Proof.
+  induction n as [|n IH]; simpl; intros s x H.
+  - exists x. split; [exact H | apply reach_refl].
+  - apply IH in H as [y [Hy R]]. destruct (memb n s && negb (memb n vis)) eqn:E.
+    + apply In_union in Hy as [Hy|Hy].
+      * exists n. apply andb_true_iff in E. destruct E as [E _]. split; [apply memb_In; exact E|].
+        eapply reach_trans; [exact R|]. eapply reach_step; [exact Hy | apply reach_refl].
+      * exists y. split; assumption.
+    + exists y. split; assumption.
+Qed.
+
+Lemma sweep_new g vis : wf_dag g = true -> forall n s x,
+  In x (sweep_avoid g vis n s) -> In x s \/ S x < n \/ length g <= x.
+Proof.
+  intros W. induction n as [|n IH]; simpl; intros s x H; [left; exact H|].
+  apply IH in H as [H|[H|H]]; [| right; left; lia | right; right; exact H].
+  destruct (memb n s && negb (memb n vis)) eqn:E; [|left; exact H].
+  apply In_union in H as [H|H]; [|left; exact H].
+  destruct (wf_parents g n x W H) as [L|G]; [right; left; lia | right; right; exact G].
+Qed.
+
+Lemma sweep_closed g vis : wf_dag g = true -> forall n s x,
+  In x (sweep_avoid g vis n s) -> x < n -> ~ In x vis ->
+  forall p, In p (parents g x) -> In p (sweep_avoid g vis n s).
+Proof.
+  intros W. induction n as [|n IH]; intros s x Hx Hlt Nv p Hp; [lia|].
+  simpl in *. destruct (Nat.eq_dec x n) as [->|Hne].
+  - destruct (memb n s) eqn:E.
+    + apply memb_false in Nv. rewrite Nv. cbn [negb andb].
+      apply sweep_incl. apply In_union. left. exact Hp.
+    + cbn [andb] in Hx. apply (sweep_new g vis W) in Hx as [Hx|[Hx|Hx]].
+      * apply memb_false in E. contradiction.
+      * lia.
+      * rewrite (parents_ghost g n Hx) in Hp. contradiction.
+  - apply IH with x; [exact Hx | lia | exact Nv | exact Hp].
+Qed.
+
+Lemma sweep_stuck g vis : forall n s, (forall x, In x s -> In x vis) -> sweep_avoid g vis n s = s.
+Proof.
+  induction n as [|n IH]; intros s H; [reflexivity|]. simpl.
+  destruct (memb n s) eqn:E; [|apply IH; exact H].
+  apply memb_In in E. apply H in E. apply memb_In in E. rewrite E. cbn [negb andb]. apply IH. exact H.
+Qed.
+
+Lemma walk_ok_full U vis r : wf_dag (ug U) = true -> walk_ok U vis r (missing_full U vis r).
+Proof.
+  intros W. split; [|split].
+  - intros a Ha. apply (missing_full_spec U vis r a W). exact Ha.
+  - intros a Ha. apply (missing_full_spec U vis r a W). apply ravoid_missing. exact Ha.
+  - intros b Hb. apply In_boundary in Hb. destruct Hb as [[m [Hm Hp]] [S N]].
+    apply (missing_full_spec U vis r m W) in Hm. destruct Hm as [Rm _].
+    destruct (memb b vis) eqn:E; [apply memb_In; exact E|]. exfalso. apply N.
+    apply (missing_full_spec U vis r b W). split; [|split; [exact S | apply memb_false; exact E]].
+    apply reach_trans with m; [apply reach_step with b; [exact Hp | apply reach_refl] | exact Rm].
+Qed.
+
+Lemma In_replay U vis r a :
+  In a (missing_replay U vis r) <->
+  In a (sweep_avoid (ug U) vis (length (ug U)) [r]) /\ srcp U a = true /\ ~ In a vis.
+Proof. unfold missing_replay. rewrite filter_In, andb_true_iff, negb_true_iff, memb_false. tauto. Qed.
+
+Lemma walk_ok_replay U vis r : wf_dag (ug U) = true -> walk_ok U vis r (missing_replay U vis r).
+Proof.
+  intros W. split; [|split].
+  - intros a Ha. apply In_replay in Ha. destruct Ha as [Hs [S N]]. split; [|tauto].
+    apply sweep_sound in Hs. destruct Hs as [y [[<-|[]] R]]. exact R.
+  - intros a Ha. induction Ha as [S N | c p Hc IH Hp Sp Np].
+    + apply In_replay. split; [apply sweep_incl; left; reflexivity | tauto].
+    + apply In_replay in IH. destruct IH as [Hs [Sc Nc]]. apply In_replay. split; [|tauto].
+      apply (sweep_closed _ _ W _ _ c Hs); [apply srcp_lt; exact Sc | exact Nc | exact Hp].
+  - intros b Hb. apply In_boundary in Hb. destruct Hb as [[m [Hm Hp]] [S N]].
+    apply In_replay in Hm. destruct Hm as [Hs [Sm Nm]].
+    destruct (memb b vis) eqn:E; [apply memb_In; exact E|]. exfalso. apply N.
+    apply In_replay. split; [|split; [exact S | apply memb_false; exact E]].
+    apply (sweep_closed _ _ W _ _ m Hs); [apply srcp_lt; exact Sm | exact Nm | exact Hp].
+Qed.
+
+(* every search the model performs is an admissible walk *)
+Theorem missing_ok U c fg vis r : wf_dag (ug U) = true -> walk_ok U vis r (missing U c fg vis r).
+Proof.
+  intros W. unfold missing. destruct fg; [apply walk_ok_full; exact W|].
+  destruct (remote_src c); [apply walk_ok_replay; exact W|].
+  rewrite missing_walk_eq. apply walk_ok_full. exact W.
+Qed.
+
+Lemma missing_not_vis U c fg vis r a : wf_dag (ug U) = true ->
+  In a (missing U c fg vis r) -> reach (ug U) a r /\ srcp U a = true /\ ~ In a vis.
+Proof. intros W H. destruct (missing_ok U c fg vis r W) as [H1 _]. apply H1. exact H. Qed.
+
+Lemma boundary_in_vis U c fg vis r b : wf_dag (ug U) = true ->
+  In b (boundary U (missing U c fg vis r)) -> In b vis.
+Proof. intros W H. destruct (missing_ok U c fg vis r W) as [_ [_ H3]]. apply H3. exact H. Qed.
+
+Lemma missing_ghost_nil U c fg vis r : wf_dag (ug U) = true -> srcp U r = false ->
+  missing U c fg vis r = [].
+Proof.
+  intros W S. apply no_elements_nil. intros x Hx. apply (missing_not_vis U c fg vis r x W) in Hx.
+  destruct Hx as [R [Sx _]]. apply srcp_ge in S. pose proof (reach_ghost _ _ _ S R) as E. subst x.
+  apply srcp_ge in S. congruence.
+Qed.
+
+(* when does the search request EVERY ancestor the target lacks: find_ghosts, or a local source
+   (single batch), or a target without fillable ghosts *)
+Definition fills_all (U : univ) (c : cfg) (fg : bool) (vis : list revid) : Prop :=
+  fg = true \/ remote_src c = false \/ closedb U vis = true.
+
+Lemma missing_is_full U c fg vis r a : wf_dag (ug U) = true -> fills_all U c fg vis -> srcp U r = true ->
+  (In a (missing U c fg vis r) <-> In a (missing_full U vis r)).
+Proof.
+  intros W G Sr. unfold missing. destruct fg; [tauto|]. destruct (remote_src c) eqn:Rm; [|rewrite missing_walk_eq; tauto].
+  unfold fills_all in G. destruct G as [G|[G|C]]; [discriminate|congruence|].
+  apply (walk_ok_closed U vis r _ a W C Sr). apply walk_ok_replay. exact W.
+Qed.
+
+(* then an existing ancestor of r that is not requested is already visible *)
+Lemma not_missing_vis U c fg vis r a : wf_dag (ug U) = true -> fills_all U c fg vis ->
+  reach (ug U) a r -> srcp U a = true -> ~ In a (missing U c fg vis r) -> In a vis.
+Proof.
+  intros W G R S N.
+  assert (Sr : srcp U r = true).
+  { destruct (srcp U r) eqn:Sr; [reflexivity|]. apply srcp_ge in Sr.
+    pose proof (reach_ghost _ _ _ Sr R) as E. subst a. apply srcp_ge in Sr. congruence. }
+  destruct (memb a vis) eqn:E; [apply memb_In; exact E|]. exfalso. apply N.
+  apply (missing_is_full U c fg vis r a W G Sr).
+  apply (missing_full_spec U vis r a W). split; [exact R|]. split; [exact S|]. apply memb_false. exact E.
 Qed.
 
 (* ---- fetch: shape ------------------------------------------------------------- *)
 
-Lemma fetch_cases U c F T fg r out n T' : fetch U c F T fg r = (out, n, T') ->
+Lemma fetch_cases U c F T fg r out n T' : wf_dag (ug U) = true -> fetch U c F T fg r = (out, n, T') ->
   (out <> FOk /\ T' = T) \/
-  (out = FOk /\ T' = T /\ n = 0 /\
-     (srcp U r = false /\ fg = false /\ In r (vis_of F T) \/
-      srcp U r = true /\ missing U fg (vis_of F T) r = [])) \/
+  (out = FOk /\ T' = T /\ n = 0 /\ missing U c fg (vis_of F T) r = [] /\
+     (srcp U r = false /\ fg = false /\ In r (vis_of F T) \/ srcp U r = true)) \/
   (out = FOk /\ srcp U r = true /\ incompat c = false /\
-     T' = insert U c T (missing U fg (vis_of F T) r) /\ n = length (missing U fg (vis_of F T) r)).
+     T' = insert U c T (missing U c fg (vis_of F T) r) /\ n = length (missing U c fg (vis_of F T) r)).
 Proof.
-  unfold fetch, transfer. intros H.
+  unfold fetch, transfer. intros W H.
   destruct (negb (srcp U r) && (fg || negb (memb r (vis_of F T)))) eqn:E.
   - inversion H; subst. left. split; [discriminate | reflexivity].
   - destruct (srcp U r) eqn:S.
-    + destruct (missing U fg (vis_of F T) r) as [|m M] eqn:EM.
-      * inversion H; subst. right. left. repeat split; try reflexivity. right. split; reflexivity.
+    + destruct (missing U c fg (vis_of F T) r) as [|m M] eqn:EM.
+      * inversion H; subst. right. left. repeat split; try reflexivity. right. reflexivity.
       * destruct (incompat c) eqn:I.
         -- inversion H; subst. left. split; [discriminate | reflexivity].
         -- inversion H; subst. right. right. repeat split; reflexivity.
     + cbn [negb andb] in E. apply orb_false_iff in E. destruct E as [E1 E2].
       apply negb_false_iff in E2. apply memb_In in E2.
-      assert (EM : missing U fg (vis_of F T) r = []).
-      { subst fg. unfold missing, missing_walk. apply filter_nil. intros x Hx.
-        unfold anc in Hx. apply close_down_sound in Hx. destruct Hx as [s [[<-|[]] R]].
-        apply srcp_ge in S. pose proof (reach_ghost _ _ _ S R) as Ex. subst x.
-        apply srcp_ge in S. rewrite S. reflexivity. }
-      rewrite EM in H. inversion H; subst. right. left. repeat split; try reflexivity.
+      rewrite (missing_ghost_nil U c fg _ r W S) in H. inversion H; subst. right. left.
+      repeat split; try reflexivity; [apply (missing_ghost_nil U c false _ r W S)|].
       left. repeat split; try reflexivity. exact E2.
 Qed.
 
@@ -252,36 +395,47 @@ Theorem fetch_preserves U c F T fg r out n T' : fetch U c F T fg r = (out, n, T'
   incl (revs T) (revs T') /\ incl (invs T) (invs T') /\ incl (texts T) (texts T') /\
   (out <> FOk -> T' = T).
 Proof.
-  intros H. destruct (fetch_cases U c F T fg r out n T' H) as [[N E]|[[O [E _]]|[O [_ [_ [E _]]]]]]; subst T'.
-  - repeat split; try apply incl_refl.
-  - repeat split; try apply incl_refl.
-  - repeat split.
-    + intros x Hx. rewrite revs_insert. apply In_union. right. exact Hx.
-    + intros x Hx. apply In_invs_insert. right. right. exact Hx.
-    + intros x Hx. apply In_texts_insert. right. exact Hx.
-    + intros N. congruence.
+  unfold fetch, transfer. intros H.
+  assert (Ins : forall M, incl (revs T) (revs (insert U c T M)) /\ incl (invs T) (invs (insert U c T M)) /\
+                          incl (texts T) (texts (insert U c T M))).
+  { intros M. repeat split.
+    - intros x Hx. rewrite revs_insert. apply In_union. right. exact Hx.
+    - intros x Hx. apply In_invs_insert. right. right. exact Hx.
+    - intros x Hx. apply In_texts_insert. right. exact Hx. }
+  destruct (negb (srcp U r) && (fg || negb (memb r (vis_of F T)))).
+  - inversion H; subst. repeat split; try apply incl_refl.
+  - destruct (missing U c fg (vis_of F T) r) as [|m M] eqn:EM.
+    + inversion H; subst. repeat split; try apply incl_refl.
+    + destruct (incompat c).
+      * inversion H; subst. repeat split; try apply incl_refl.
+      * inversion H; subst. destruct (Ins (m :: M)) as [I1 [I2 I3]]. repeat split; try assumption. congruence.
 Qed.
 
+(* completeness.  Always: every revision reached from r without passing through a revision the
+   target saw is visible afterwards.  When the search fills everything (find_ghosts, a local
+   source, or a target without fillable ghosts): every ancestor of r the source has.  A closed
+   target is closed again. *)
 Theorem fetch_complete U c F T fg r n T' : wf_dag (ug U) = true ->
   fetch U c F T fg r = (FOk, n, T') ->
-  (forall a, reach (ug U) a r -> srcp U a = true -> In a (vis_of F T')) /\
+  (forall a, ravoid U (vis_of F T) r a -> In a (vis_of F T')) /\
+  (fills_all U c fg (vis_of F T) ->
+     forall a, reach (ug U) a r -> srcp U a = true -> In a (vis_of F T')) /\
   (closedb U (vis_of F T) = true -> closedb U (vis_of F T') = true).
 Proof.
-  intros W H.
-  destruct (fetch_cases U c F T fg r FOk n T' H) as [[N _]|[[_ [E [_ D]]]|[_ [S [_ [E _]]]]]]; [congruence| |]; subst T'.
-  - split; [|tauto]. intros a R Sa. destruct D as [[Sr _]|[Sr EM]].
-    + apply srcp_ge in Sr. pose proof (reach_ghost _ _ _ Sr R) as Ea. subst a. apply srcp_ge in Sr. congruence.
-    + apply (not_missing_vis U fg _ r a W R Sa). rewrite EM. intros [].
-  - set (M := missing U fg (vis_of F T) r). split.
-    + intros a R Sa. apply In_vis_insert. destruct (memb a M) eqn:E.
+  intros W H. destruct (missing_ok U c fg (vis_of F T) r W) as [H1 [H2 H3]].
+  destruct (fetch_cases U c F T fg r FOk n T' W H) as [[N _]|[[_ [E [_ [EM D]]]]|[_ [S [_ [E _]]]]]]; [congruence| |]; subst T'.
+  - split; [|split; [|tauto]].
+    + intros a Ha. apply H2 in Ha. rewrite EM in Ha. contradiction.
+    + intros G a R Sa. apply (not_missing_vis U c fg _ r a W G R Sa). rewrite EM. intros [].
+  - set (M := missing U c fg (vis_of F T) r) in *. split; [|split].
+    + intros a Ha. apply In_vis_insert. left. apply H2. exact Ha.
+    + intros G a R Sa. apply In_vis_insert. destruct (memb a M) eqn:E.
       * left. apply memb_In. exact E.
-      * right. apply (not_missing_vis U fg _ r a W R Sa). apply memb_false. exact E.
+      * right. apply (not_missing_vis U c fg _ r a W G R Sa). apply memb_false. exact E.
     + intros C. apply closedb_spec. intros x p Hx Sx Hp Sp. apply In_vis_insert.
       apply In_vis_insert in Hx. destruct Hx as [Hx|Hx].
       * destruct (memb p M) eqn:E; [left; apply memb_In; exact E|]. right.
-        apply (not_missing_vis U fg _ r p W); [|exact Sp|apply memb_false; exact E].
-        apply reach_trans with x; [apply reach_step with p; [exact Hp|apply reach_refl]|].
-        apply (missing_not_vis U fg _ r x W Hx).
+        apply H3. apply In_boundary. split; [exists x; tauto|]. split; [exact Sp | apply memb_false; exact E].
       * right. rewrite closedb_spec in C. apply (C x p); assumption.
 Qed.
 
@@ -290,16 +444,32 @@ Proof. reflexivity. Qed.
 
 Theorem fetch_idempotent U c F T fg r n T' : wf_dag (ug U) = true ->
   fetch U c F T fg r = (FOk, n, T') ->
-  missing U fg (vis_of F T') r = [] /\ fetch U c F T' fg r = (FOk, 0, T').
+  missing U c fg (vis_of F T') r = [] /\ fetch U c F T' fg r = (FOk, 0, T').
 Proof.
   intros W H.
-  assert (EM : missing U fg (vis_of F T') r = []).
-  { apply (missing_nil U fg _ r W). apply (fetch_complete U c F T fg r n T' W H). }
+  assert (EM : missing U c fg (vis_of F T') r = []).
+  { destruct (srcp U r) eqn:S; [|apply (missing_ghost_nil U c fg _ r W S)].
+    destruct (fetch_complete U c F T fg r n T' W H) as [Hav [Hall _]].
+    assert (Hr : In r (vis_of F T')).
+    { destruct (memb r (vis_of F T)) eqn:E.
+      - apply memb_In in E. destruct (fetch_preserves U c F T fg r FOk n T' H) as [I _].
+        unfold vis_of in *. apply in_app_or in E. apply in_or_app. destruct E as [E|E]; [left; apply I; exact E | right; exact E].
+      - apply Hav. apply ra_tip; [exact S | apply memb_false; exact E]. }
+    assert (Full : fg = true \/ remote_src c = false -> missing U c fg (vis_of F T') r = []).
+    { intros G. apply no_elements_nil. intros x Hx.
+      assert (G' : fills_all U c fg (vis_of F T')) by (unfold fills_all; tauto).
+      apply (missing_is_full U c fg _ r x W G' S) in Hx. apply (missing_full_spec U _ r x W) in Hx.
+      destruct Hx as [R [Sx Nx]]. apply Nx. apply Hall; [unfold fills_all; tauto | exact R | exact Sx]. }
+    destruct fg; [apply Full; left; reflexivity|].
+    destruct (remote_src c) eqn:Rm; [|apply Full; right; reflexivity].
+    unfold missing. rewrite Rm. unfold missing_replay.
+    rewrite sweep_stuck; [|intros x [<-|[]]; exact Hr].
+    cbn [filter]. rewrite S. cbn [andb]. apply memb_In in Hr. rewrite Hr. reflexivity. }
   split; [exact EM|].
   destruct (srcp U r) eqn:S.
   - unfold fetch, transfer. rewrite S. cbn [negb andb]. rewrite EM. reflexivity.
-  - destruct (fetch_cases U c F T fg r FOk n T' H) as [[N _]|[[_ [E [_ D]]]|[_ [S' _]]]]; [congruence| |congruence]; subst T'.
-    destruct D as [[_ [Ef Hv]]|[S' _]]; [|congruence]. subst fg.
+  - destruct (fetch_cases U c F T fg r FOk n T' W H) as [[N _]|[[_ [E [_ [_ D]]]]|[_ [S' _]]]]; [congruence| |congruence]; subst T'.
+    destruct D as [[_ [Ef Hv]]|S']; [|congruence]. subst fg.
     unfold fetch, transfer. rewrite S. cbn [negb andb orb].
     apply memb_In in Hv. rewrite Hv. cbn [negb]. rewrite EM. reflexivity.
 Qed.
@@ -315,41 +485,25 @@ Proof.
     apply forallb_forall. intros t Ht. apply tmemb_In. apply H2. exact Ht.
 Qed.
 
-(* a text referenced by a sent revision is sent with it (selection by revision) or is
-   referenced by a boundary parent *)
-Lemma inherit_path U M : wf_univ U = true -> forall r t, In r M -> In t (inv_of U r) ->
-  In (snd t) M \/ exists b, In b (boundary U M) /\ In t (inv_of U b).
-Proof.
-  intros W r. induction r as [r IH] using lt_wf_ind. intros t Hr Ht.
-  destruct (wf_univ_entry U r t W Ht) as [E|[p [Hp [Sp Htp]]]].
-  - left. rewrite E. exact Hr.
-  - destruct (memb p M) eqn:Ep.
-    + apply memb_In in Ep. apply (IH p); try assumption.
-      destruct (wf_parents (ug U) r p (wf_univ_dag U W) Hp) as [L|L]; [exact L|]. apply srcp_lt in Sp. lia.
-    + right. exists p. split; [|exact Htp]. apply In_boundary. split; [exists r; tauto|].
-      split; [exact Sp | apply memb_false; exact Ep].
-Qed.
-
-Lemma sent_or_boundary U c M r t : wf_univ U = true -> In r M -> In t (inv_of U r) ->
+(* a text referenced by a sent revision is sent with it or is referenced by a boundary parent *)
+Lemma sent_or_boundary U c M r t : In r M -> In t (inv_of U r) ->
   In t (sent_texts U c M) \/ exists b, In b (boundary U M) /\ In t (inv_of U b).
 Proof.
-  intros W Hr Ht. unfold sent_texts. destruct (byrev c).
-  - destruct (inherit_path U M W r t Hr Ht) as [H|H]; [left|right; exact H].
-    unfold texts_byrev. apply filter_In. split; [apply In_inv_texts; exists r; tauto | apply memb_In; exact H].
-  - destruct (tmemb t (inv_texts U (boundary U M))) eqn:E.
-    + right. apply tmemb_In in E. apply In_inv_texts in E. exact E.
-    + left. unfold texts_diff. apply filter_In. split; [apply In_inv_texts; exists r; tauto|]. rewrite E. reflexivity.
+  intros Hr Ht. unfold sent_texts.
+  destruct (tmemb t (inv_texts U (boundary U M))) eqn:E.
+  - right. apply tmemb_In in E. apply In_inv_texts in E. exact E.
+  - left. unfold texts_diff. apply filter_In. split; [apply In_inv_texts; exists r; tauto|]. rewrite E. reflexivity.
 Qed.
 
 (* the core of C03_payload_equal: inserting the stream for M into a complete repository that
    holds the boundary parents of M gives a complete repository *)
-Lemma insert_keeps_full U c T M : wf_univ U = true ->
+Lemma insert_keeps_full U c T M :
   (forall b, In b (boundary U M) -> In b (revs T)) ->
   full U T -> full U (insert U c T M).
 Proof.
-  intros W HB HF x Hx Sx. rewrite revs_insert in Hx. apply In_union in Hx. destruct Hx as [Hx|Hx].
+  intros HB HF x Hx Sx. rewrite revs_insert in Hx. apply In_union in Hx. destruct Hx as [Hx|Hx].
   - split; [apply In_invs_insert; tauto|]. intros t Ht. apply In_texts_insert.
-    destruct (sent_or_boundary U c M x t W Hx Ht) as [Hs|[b [Hb Htb]]]; [left; exact Hs|right].
+    destruct (sent_or_boundary U c M x t Hx Ht) as [Hs|[b [Hb Htb]]]; [left; exact Hs|right].
     apply (HF b (HB b Hb)); [|exact Htb]. apply In_boundary in Hb. tauto.
   - destruct (HF x Hx Sx) as [H1 H2]. split; [apply In_invs_insert; tauto|].
     intros t Ht. apply In_texts_insert. right. apply H2. exact Ht.
@@ -357,15 +511,15 @@ Qed.
 
 (* C03_payload_equal: into an unstacked, complete target every copied revision arrives with
    its inventory and every text it references *)
-Theorem fetch_keeps_full U c F T fg r out n T' : wf_univ U = true ->
+Theorem fetch_keeps_full U c F T fg r out n T' : wf_dag (ug U) = true ->
   fetch U c F T fg r = (out, n, T') -> revs F = [] ->
   full U T -> full U T'.
 Proof.
   intros W H EF HF.
   assert (Ev : vis_of F T = revs T) by (unfold vis_of; rewrite EF; apply app_nil_r).
-  destruct (fetch_cases U c F T fg r out n T' H) as [[_ E]|[[_ [E _]]|[_ [_ [_ [E _]]]]]]; subst T'; try exact HF.
-  rewrite Ev. apply insert_keeps_full; [exact W| |exact HF].
-  intros b Hb. apply (boundary_in_vis U fg (revs T) r b (wf_univ_dag U W) Hb).
+  destruct (fetch_cases U c F T fg r out n T' W H) as [[_ E]|[[_ [E _]]|[_ [_ [_ [E _]]]]]]; subst T'; try exact HF.
+  rewrite Ev. apply insert_keeps_full; [|exact HF].
+  intros b Hb. apply (boundary_in_vis U c fg (revs T) r b W Hb).
 Qed.
 
 (* ---- C08 ---------------------------------------------------------------------- *)
@@ -388,7 +542,7 @@ Proof.
     + intros t Ht Hd. apply In_texts_insert. left.
       assert (Et : snd t = x).
       { destruct (wf_univ_entry U x t W Ht) as [E|[p [Hp [_ Htp]]]]; [exact E|]. exfalso. apply (Hd p Hp Htp). }
-      destruct (sent_or_boundary U c M x t W Hx Ht) as [Hs|[b [Hb Htb]]]; [exact Hs|exfalso].
+      destruct (sent_or_boundary U c M x t Hx Ht) as [Hs|[b [Hb Htb]]]; [exact Hs|exfalso].
       pose proof (text_origin U W b t Htb) as R. rewrite Et in R.
       apply (HM x Hx). apply (closed_reach U vis C x b R (HB b Hb) Sx).
   - destruct (HL x Hx Sx) as [H1 [H2 H3]]. split; [apply In_invs_insert; tauto|]. split.
@@ -401,10 +555,10 @@ Theorem fetch_keeps_complete U c F T fg r out n T' : wf_univ U = true ->
   local_complete U T -> local_complete U T'.
 Proof.
   intros W H X C HL. pose proof (wf_univ_dag U W) as Wd.
-  destruct (fetch_cases U c F T fg r out n T' H) as [[_ E]|[[_ [E _]]|[_ [_ [_ [E _]]]]]]; subst T'; try exact HL.
+  destruct (fetch_cases U c F T fg r out n T' Wd H) as [[_ E]|[[_ [E _]]|[_ [_ [_ [E _]]]]]]; subst T'; try exact HL.
   apply (insert_keeps_complete U c T _ (vis_of F T) W X C); [| |exact HL].
-  - intros m Hm. apply (missing_not_vis U fg _ r m Wd Hm).
-  - intros b Hb. apply (boundary_in_vis U fg _ r b Wd Hb).
+  - intros m Hm. apply (missing_not_vis U c fg _ r m Wd Hm).
+  - intros b Hb. apply (boundary_in_vis U c fg _ r b Wd Hb).
 Qed.
 
 Lemma commit_unfillable_nil F T ps : commit_unfillable F T ps = [] ->
@@ -492,7 +646,8 @@ Theorem fetch_tip_readable U c F T fg r n T' : wf_univ U = true ->
 Proof.
   intros W H X C HL HF Sr. pose proof (wf_univ_dag U W) as Wd.
   pose proof (fetch_keeps_complete U c F T fg r FOk n T' W H X C HL) as HL'.
-  destruct (fetch_complete U c F T fg r n T' Wd H) as [Hall HC]. specialize (HC C).
+  destruct (fetch_complete U c F T fg r n T' Wd H) as [_ [Hall HC]]. specialize (HC C).
+  specialize (Hall (or_intror (or_intror C))).
   assert (All : forall x, In x (revs T') -> srcp U x = true -> readable U F T' x)
     by (apply complete_readable; assumption).
   split; [|exact All].
@@ -549,64 +704,14 @@ Proof.
   - apply full_b_spec. vm_compute. reflexivity.
 Qed.
 
-(* ---- the walk for ANY batching ----------------------------------------------------------- *)
-(* [ravoid U vis r a]: a is reached from r in the source without passing through a revision the
-   target sees -- what a walk that checks the target after every single step requests. *)
-Inductive ravoid (U : univ) (vis : list revid) (r : revid) : revid -> Prop :=
-| ra_tip : srcp U r = true -> ~ In r vis -> ravoid U vis r r
-| ra_step c p : ravoid U vis r c -> In p (parents (ug U) c) -> srcp U p = true -> ~ In p vis ->
-    ravoid U vis r p.
-
-(* What the repaired walk guarantees whatever the batch size and the shape of the history: it
-   requests only ancestors of r the target does not see, at least the [ravoid] ones, and it stops
-   only at revisions the target sees (every parent of a requested revision is requested or seen). *)
-Definition walk_ok (U : univ) (vis : list revid) (r : revid) (M : list revid) : Prop :=
-  (forall a, In a M -> reach (ug U) a r /\ srcp U a = true /\ ~ In a vis) /\
-  (forall a, ravoid U vis r a -> In a M) /\
-  (forall b, In b (boundary U M) -> In b vis).
-
-Lemma ravoid_missing U vis r a : ravoid U vis r a -> reach (ug U) a r /\ srcp U a = true /\ ~ In a vis.
-Proof.
-  intros H. induction H as [S N | c p Hc [Rc _] Hp Sp Np].
-  - split; [apply reach_refl | tauto].
-  - split; [|tauto]. apply reach_trans with c; [|exact Rc]. apply reach_step with p; [exact Hp | apply reach_refl].
-Qed.
-
-(* the modelled (single batch) walk is one of them *)
+(* the modelled local walk is an admissible walk *)
 Theorem walk_ok_model U vis r : wf_dag (ug U) = true -> walk_ok U vis r (missing_walk U vis r).
-Proof.
-  intros W. split; [|split].
-  - intros a Ha. apply (missing_walk_spec U vis r a W). exact Ha.
-  - intros a Ha. apply (missing_walk_spec U vis r a W). apply ravoid_missing. exact Ha.
-  - intros b Hb. apply (boundary_in_vis U false vis r b W). exact Hb.
-Qed.
-
-(* on a target without fillable ghosts every admissible walk requests exactly the missing ancestors *)
-Lemma closed_ravoid U vis r : closedb U vis = true -> forall a x, reach (ug U) a x ->
-  ravoid U vis r x -> srcp U a = true -> ~ In a vis -> ravoid U vis r a.
-Proof.
-  intros C a x R. induction R as [x | a p x Hp Rap IH]; intros Hx Sa Na; [exact Hx|].
-  apply IH; [|exact Sa|exact Na].
-  assert (Sp : srcp U p = true).
-  { destruct (srcp U p) eqn:Sp; [reflexivity|]. apply srcp_ge in Sp.
-    pose proof (reach_ghost _ _ _ Sp Rap) as E. subst a. apply srcp_ge in Sp. congruence. }
-  apply ra_step with x; [exact Hx | exact Hp | exact Sp|].
-  intros Hv. apply Na. apply (closed_reach U vis C a p Rap Hv Sa).
-Qed.
-
-Theorem walk_ok_closed U vis r M a : wf_dag (ug U) = true -> closedb U vis = true ->
-  srcp U r = true -> walk_ok U vis r M -> (In a M <-> In a (missing_full U vis r)).
-Proof.
-  intros W C Sr [H1 [H2 _]]. rewrite (missing_full_spec U vis r a W). split; [apply H1|].
-  intros [R [Sa Na]]. apply H2.
-  apply (closed_ravoid U vis r C a r R); [|exact Sa|exact Na].
-  apply ra_tip; [exact Sr|]. intros Hv. apply Na. apply (closed_reach U vis C a r R Hv Sa).
-Qed.
+Proof. intros W. rewrite missing_walk_eq. apply walk_ok_full. exact W. Qed.
 
 (* whatever the batching, the copied revisions arrive whole and the stacking invariant is kept *)
-Theorem walk_ok_keeps_full U c T r M : wf_univ U = true ->
+Theorem walk_ok_keeps_full U c T r M :
   walk_ok U (revs T) r M -> full U T -> full U (insert U c T M).
-Proof. intros W [_ [_ H3]] HF. apply insert_keeps_full; assumption. Qed.
+Proof. intros [_ [_ H3]] HF. apply insert_keeps_full; assumption. Qed.
 
 Theorem walk_ok_keeps_complete U c F T r M : wf_univ U = true -> ext c = true ->
   closedb U (vis_of F T) = true -> walk_ok U (vis_of F T) r M ->
@@ -674,13 +779,13 @@ Proof.
     + unfold fetch_all, transfer. rewrite E0. reflexivity.
 Qed.
 
-Theorem fetch_all_keeps_full U c F T out n T' : wf_univ U = true ->
+Theorem fetch_all_keeps_full U c F T out n T' :
   fetch_all U c F T = (out, n, T') -> revs F = [] -> full U T -> full U T'.
 Proof.
-  intros W H EF HF.
+  intros H EF HF.
   assert (Ev : vis_of F T = revs T) by (unfold vis_of; rewrite EF; apply app_nil_r).
   destruct (fetch_all_cases U c F T out n T' H) as [[_ E]|[[_ [E _]]|[_ E]]]; subst T'; try exact HF.
-  apply insert_keeps_full; [exact W| |exact HF]. rewrite Ev. apply boundary_all_in_vis.
+  apply insert_keeps_full; [|exact HF]. rewrite Ev. apply boundary_all_in_vis.
 Qed.
 
 Theorem fetch_all_keeps_complete U c F T out n T' : wf_univ U = true ->
